@@ -240,6 +240,8 @@ pub struct World<A: Flavor> {
     pub page: usize,
     /// bytes that some owner has ever set non-zero (C08 non-triviality), by offset
     pub dirtied: Vec<bool>,
+    /// C20: discarded() as of the previous step (monotone except through clear)
+    pub last_discarded: u32,
     /// C13: the file was marked remove-on-drop: it must exist until the last holder is dropped and be gone right after
     pub remove_on_drop: bool,
     pub crash: Option<Rc<CrashShared>>,
@@ -390,6 +392,7 @@ impl<A: Flavor> World<A> {
             opno: 0,
             page,
             dirtied: vec![false; capacity],
+            last_discarded: 0,
             remove_on_drop: false,
             crash: None,
             live_log: Vec::new(),
@@ -436,6 +439,7 @@ impl<A: Flavor> World<A> {
             opno: 0,
             page: page_size(),
             dirtied: vec![false; capacity],
+            last_discarded: 0,
             remove_on_drop: false,
             crash: None,
             live_log: Vec::new(),
@@ -538,6 +542,9 @@ impl<A: Flavor> World<A> {
             "C16", "remaining-law",
             "remaining()={} but capacity()-allocated()={}-{}", post.remaining, post.capacity, post.allocated
         );
+        // C20: monotone (clear and the roll-back of a copy-on-write session reset the baseline themselves)
+        ensure!(post.discarded >= self.last_discarded, "C20", "discarded-decreased", "discarded() went from {} to {} (op {})", self.last_discarded, post.discarded, self.opno);
+        self.last_discarded = post.discarded;
         let rs = a.reserved_slice();
         ensure!(rs.len() == self.cfg.reserved as usize, "C16", "reserved-len", "reserved_slice().len()={} configured {}", rs.len(), self.cfg.reserved);
         ensure!(rs == &self.reserved_expect[..], "C16", "reserved-written", "reserved prefix was modified by an arena operation");
@@ -1486,6 +1493,7 @@ impl<A: Flavor> World<A> {
         self.dead.clear();
         self.high_water = d;
         self.inc_total = 0;
+        self.last_discarded = 0;
         self.classes.insert("clear");
         Ok(())
     }
@@ -1602,6 +1610,7 @@ impl<A: Flavor> World<A> {
                 self.dead = sv.dead.clone();
                 self.high_water = sv.high_water;
                 self.classes.insert("reopen-after-cow");
+                self.last_discarded = sv.obs.discarded;
                 sv.obs
             }
             None => closing.clone(),
